@@ -9,20 +9,20 @@ CLAIMS = {
          "broker model + independent codec are the reference; legitimate-MQTT broker (no unsolicited/duplicate acks) outside the hostile profile", SIM),
  "C02": ("exploration", "5 C02", "Safety on completion codes at all times (no transport error, no unjustified operation_aborted), bounded liveness: every accepted, uncancelled operation completes within 200 simulated s after the last fault, same packet id on every retransmission and presence on the first fault-free connection.",
          "liveness bound B = 200 s of virtual time after Heal (+ injected stall time); client must be running", SIM + "; bounded liveness in the healed suffix"),
- "C03": ("exploration", "5 C03", "Wire history per tagged message across connections: no PUBLISH after its PUBREL, retransmissions byte-identical except DUP, first transmission DUP=0, DUP=1 when an earlier transmission's write was reported successful.",
+ "C03": ("exploration", "5 C03", "Wire history per tagged message across connections: no PUBLISH after its PUBREL, retransmissions byte-identical except DUP, first transmission DUP=0, DUP=1 when an earlier transmission's write was reported successful; no PUBLISH on a later connection once its successful PUBREC was read and processed (clause 1b).",
          "the transport model knows what each composed write reported to the client", SIM),
  "C05": ("exploration", "5 C05", "Completion counters per operation (never > 1, exactly 1 after teardown), re-entrancy flag, prompt completion after cancel()/async_disconnect (no virtual time may pass except behind an uncancellable resolve), io_context out of work after cancel()+drain and after destruction.",
          "operations are only initiated on a running client (documented precondition)", SIM),
  "C06": ("exploration", "5 C06", "Per connection the PUBLISH packets (QoS>0; all when no Receive Maximum was announced) arrive in initiation order (non-decreasing operation index incl. retransmissions), cancelled operations skipped.", "message identity by tagged topic", SIM),
- "C07": ("exploration", "5 C07", "Broker-side counter of distinct QoS>0 packet ids received and not yet released by an emitted PUBACK/PUBCOMP/failing PUBREC never exceeds the Receive Maximum of that connection's CONNACK, checked at every receipt; starvation is covered by C02's liveness.",
+ "C07": ("exploration", "5 C07", "Broker-side counter of distinct QoS>0 packet ids received and not yet released by an emitted PUBACK/PUBCOMP/failing PUBREC never exceeds the Receive Maximum of that connection's CONNACK, checked at every receipt; progress half: a QoS>0 publish initiated on an established connection is not handed over only after 3 quiet seconds in which quota was available, no write was outstanding and nothing stalled; starvation is covered by C02's liveness.",
          "release counted at emission of the ack (earliest possible), so latency cannot cause a false alarm", SIM),
  "C08": ("exploration", "5 C08", "System: identifier never 0 and never shared by two outstanding operations of one service, pid_overrun only with 65535 outstanding. Component: packet_id_allocator against a std::set model over seeded allocate/free histories incl. full exhaustion, with shrinking.",
          "operation identity by tag, not by identifier", SIM + " + model-based component test of the allocator"),
- "C11": ("exploration", "5 C11", "Component: async_mutex against a FIFO model under seeded lock/unlock/per-waiter-cancel/cancel-all/destroy schedules stepped with poll_one (at most one holder, exactly-once completion, arrival order, cancelled waiter never granted). System: no connection attempt starts while an earlier unfinished attempt still has an operation pending.",
+ "C11": ("exploration", "5 C11", "C11x runs: detail::autoconnect_stream (lock, reconnect_op, read_op, write_op, endpoints) from /repo on its own under one reader and one serialised writer, with cancel()+close()+open() of the same stream object, judged strictly (never two attempts in progress, no resolve during an attempt, every trigger completes once, cancelled triggers are told so, reconnects after the last fault). Component: async_mutex against a FIFO model under seeded lock/unlock/per-waiter-cancel/cancel-all/destroy schedules stepped with poll_one (at most one holder, exactly-once completion, arrival order, cancelled waiter never granted). System: no connection attempt starts while an earlier unfinished attempt still has an operation pending.",
          "a cancellation signal is emitted at most once and only for an outstanding waiter", SIM + " + model-based component test of async_mutex"),
  "C14": ("exploration", "5 C14", "As C01 for SUBSCRIBE/UNSUBSCRIBE: success needs a content-exact request received and a SUBACK/UNSUBACK for its id emitted afterwards on that connection and delivered before the handler; handler reason codes equal the acknowledgement's, one per topic.",
          "legitimate broker outside hostile windows; malformed acks are generated as targeted hostile replies", SIM),
- "C17": ("exploration", "5 C17", "Strict independent MQTT 5 decoder applied to every byte the client writes in every run; PUBLISH/SUBSCRIBE/UNSUBSCRIBE/CONNECT/DISCONNECT fields compared with the supplied arguments. The input space is sampled (boundary-biased), not enumerated.",
+ "C17": ("exploration", "5 C17", "Strict independent MQTT 5 decoder applied to every byte the client writes in every run; PUBLISH/SUBSCRIBE/UNSUBSCRIBE/DISCONNECT fields compared with the supplied arguments, CONNECT fields with the configuration. The input space is sampled (boundary-biased), not enumerated.",
          "reference codec written from the specification", SIM),
  "C04": ("exploration", "5 C04", "Broker model acts as QoS 0/1/2 sender with MQTT retransmission on session resumption. Wire: ack type per QoS, no stray acks, PUBCOMP only after a delivered PUBREL. Application: content equality, QoS 2 at most once always and exactly once by the end of the healed suffix, QoS 1 at least once, per-QoS order of first deliveries. Six known-finding classes (inbound exchanges interrupted by a connection loss) are reported as KNOWN-FINDING; every other class is a VIOLATION.",
          "lower bounds only for messages not in flight when the broker dropped the session and only when the receive channel of the running client could be drained at the end", SIM + "; bounded liveness"),
@@ -34,12 +34,12 @@ CLAIMS = {
          "K = Server Keep Alive of the connection's CONNACK, else the configured value", SIM + "; exact virtual-time comparisons"),
  "C13": ("exploration", "5 C13", "Per service generation: number of session_expired errors out of async_receive equals the number of successful CONNACKs with Session Present 0 that followed a successful subscribe (upper bound always, equality when the channel could be drained), and no message of the new session is delivered before the report.",
          "cancel()/async_disconnect/re-run start a new client life (the service forgets earlier subscriptions); ambiguous attributions make a generation indefinite", SIM),
- "C15": ("exploration", "5 C15", "Requests on the boundaries of the capabilities in the CONNACK held at initiation: a forbidden request completes at the same virtual instant with a documented error and nothing of it reaches the wire; an allowed request (e.g. size == limit) is never rejected with a capability error; every received packet respects the capabilities of its connection when its request was initiated under an identical capability set.",
+ "C15": ("exploration", "5 C15", "Requests on the boundaries of the capabilities in the CONNACK held at initiation (taken from the client's CONNACK log, tied to the broker's bytes by C18, not from connack_properties()): a forbidden request completes at the same virtual instant with a documented error and nothing of it reaches the wire; an allowed request (e.g. size == limit) is never rejected with a capability error; every received packet respects the capabilities of its connection when its request was initiated under an identical capability set.",
          "boundary sizes computed with the independent reference encoder", SIM),
  "C18": ("exploration", "5 C18", "Reference-encoded broker packets (short forms, property mixes, repeated user properties, several subscription identifiers) under arbitrary chunking: CONNACK as reported by the logger and connack_properties(), async_receive results (C04), handler arguments (C01/C14), server DISCONNECT as logged, authenticator inputs equal what was encoded; a well-formed packet is never answered with DISCONNECT 0x81/0x82. The re-encode clause is a pure codec round trip and is not decided by this technique.",
          "scope: decode + surfacing through the API; not the encode-again clause", SIM),
- "C19": ("exploration", "5 C19", "Hostile broker (18 mutation kinds + random bytes, handshake and established phase, small client receive buffers) with the whole client under ASan/UBSan: no sanitizer report, abort or uncaught exception (worker death is attributed to the announced seed and replayed), no livelock at one virtual instant, a successful completion needs a well-formed acknowledgement in the byte stream as framed by the reference decoder, recovery after Heal (C02 liveness also runs in this profile).",
-         "the chunking-independence differential is not part of the quick sweep", SIM + "; sanitizers"),
+ "C19": ("exploration", "5 C19", "Hostile broker (22 mutation kinds incl. structure-aware property mutations + random bytes, handshake and established phase, small client receive buffers) with the whole client under ASan/UBSan: no sanitizer report, abort or uncaught exception (worker death is attributed to the announced seed and replayed), no livelock at one virtual instant, a successful completion needs a well-formed acknowledgement in the byte stream as framed by the reference decoder, a message handed to async_receive is a well-formed PUBLISH of that stream (Protocol Errors that still parse are not counted as malformed), operations outstanding after the hostile window closed complete within the healed suffix, and the same burst under three read chunkings gives the same logical trace (chunking differential, 25 % of the runs).",
+         "malformed = cannot be parsed (incl. ill-formed UTF-8); duplicate/foreign properties and value constraints are Protocol Errors and outside the statement", SIM + "; sanitizers"),
  "C20": ("fault_enumeration", "5 C20", "Complete enumeration of 9 categories x 256 bytes through to_reason_code against tables written from MQTT 5, in a TU built with -fno-weak so the tables are ASan-guarded (out-of-table reads are reported).",
          "the sanitizer-instrumentation workaround is a complete enumeration of a finite domain, not simulation; stated as such", "complete enumeration (2304 cases) with ASan-guarded tables"),
 }
